@@ -1,5 +1,7 @@
 use crate::Stream;
 
+pub mod c08;
+pub mod dbg;
 pub mod c09;
 pub mod c10;
 pub mod c11;
@@ -12,6 +14,8 @@ pub fn lookup(name: &str) -> Option<Box<dyn Stream>> {
         "c12" => Some(Box::new(c12::C12::new())),
         "c10" => Some(Box::new(c10::C10::new())),
         "c09" => Some(Box::new(c09::C09::new())),
+        "c08" => Some(Box::new(c08::C08::new())),
+        "dbg" => Some(Box::new(dbg::Dbg::new())),
         "c11" => Some(Box::new(c11::C11::new())),
         _ => None,
     }
